@@ -80,7 +80,7 @@ fn child(args: &Args) -> ! {
     let out = args.str("childout", "/dev/null");
     let tmp = args.str("tmpdir", "/tmp");
     let t0 = Instant::now();
-    std::panic::set_hook(Box::new(|_| {}));
+    vcore::quiet_panics();
     // the fault: fires once, in the targeted worker thread only
     if let Some(probe) = sc.probe_name() {
         let target_thread = sc.thread_name();
